@@ -339,10 +339,17 @@ again:
 		h.size = bswap_16(h.size);
 	}
 
+	/* the size comes from the file: it must cover the header ... */
+	if (h.size < sizeof(h))
+		goto bad_size;
+
 	len = h.size - sizeof(h);
 
 	switch (h.type) {
 	case PERF_RECORD_SWITCH:
+		/* ... and the record must fit the struct it is read into */
+		if (len < sizeof(u.cs) || len > sizeof(u))
+			goto bad_size;
 		if (fread(&u.cs, len, 1, perf->fp) != 1)
 			return -1;
 
@@ -360,6 +367,8 @@ again:
 
 	case PERF_RECORD_FORK:
 	case PERF_RECORD_EXIT:
+		if (len < offsetof(struct perf_task_event, sample_id) || len > sizeof(u))
+			goto bad_size;
 		if (fread(&u.t, len, 1, perf->fp) != 1)
 			return -1;
 
@@ -379,6 +388,8 @@ again:
 
 	case PERF_RECORD_COMM:
 		/* length of comm event is variable */
+		if (len < sizeof(u.c.sample_id) + offsetof(struct perf_comm_event, comm) || len > sizeof(u))
+			goto bad_size;
 		comm_len = ALIGN(len - sizeof(u.c.sample_id), 8);
 		if (fread(&u.c, comm_len, 1, perf->fp) != 1)
 			return -1;
@@ -422,6 +433,11 @@ again:
 	perf->type = h.type;
 	perf->valid = true;
 	return 0;
+
+bad_size:
+	pr_dbg("invalid perf event size: type %u size %u\n", h.type, h.size);
+	perf->done = true;
+	return -1;
 }
 
 /**
